@@ -45,6 +45,7 @@ def resolve(name):
     """object named module:Qual.name; definitions nested in functions
     (`<locals>`) are extracted mechanically: the innermost enclosing class/def AST
     is compiled from the repository source in a copy of the module globals"""
+    name = name.split('#')[0]
     modname, qn = name.split(':')
     mod = importlib.import_module(modname)
     if '<locals>' not in qn:
@@ -136,7 +137,7 @@ class Builder:
         if name is None:
             return types.SimpleNamespace(**{k: self.build(v) for k, v in d['fields'].items()})
         mdl = self.reg.models.get(name)
-        cls = resolve(name)
+        cls = resolve(name) if not name.startswith('ghost:') else Stub
         if cls is asyncio.Event:
             ev = asyncio.Event()
             if d['fields'].get('_flag'):
@@ -409,3 +410,71 @@ def confirms(ob_name, kind, info, rr):
         return True
     hard = [f for f in failed if f.startswith('exc#') and not any(f.startswith('exc#' + c) for c in ('AttributeError', 'TypeError', 'NameError'))]
     return bool(hard) and kind in ('inv-preserved', 'inv-entry', 'variant', 'callee-pre', 'frame', 'assert')
+
+
+def _leaves(d, path=()):
+    """(path, value) of bytes/int leaves of a concretised state"""
+    if isinstance(d, bytes):
+        yield path, d
+    elif isinstance(d, bool):
+        return
+    elif isinstance(d, int):
+        yield path, d
+    elif isinstance(d, dict):
+        for k, v in d.items():
+            if k in ('__obj__', 'flavor'):
+                continue
+            yield from _leaves(v, path + (k,))
+    elif isinstance(d, (list, tuple)):
+        for i, v in enumerate(d):
+            yield from _leaves(v, path + (i,))
+
+
+def _set(d, path, v):
+    if not path:
+        return v
+    k = path[0]
+    if isinstance(d, dict):
+        n = dict(d)
+        n[k] = _set(d[k], path[1:], v)
+        return n
+    if isinstance(d, list):
+        n = list(d)
+        n[k] = _set(d[k], path[1:], v)
+        return n
+    if isinstance(d, tuple):
+        n = list(d)
+        n[k] = _set(d[k], path[1:], v)
+        return tuple(n)
+    return d
+
+
+def search_near(top, registry, state, accept, budget=150):
+    """native search seeded by the counter-model: vary the lengths of byte strings
+    and nudge integers of the model state; every candidate is run on the real code
+    and must satisfy `requires` natively.  Returns (state, result) of the first run
+    that `accept`s, else None.  Only ever *adds* real failing inputs."""
+    leaves = list(_leaves(state))
+    cands = []
+    for path, v in leaves:
+        if isinstance(v, bytes):
+            base = v if v else b'\x00'
+            for n in (len(v) + 1, len(v) + 2, 2 * len(v), 2 * len(v) + 1, 3 * len(v), 3 * len(v) + 1, 4 * len(v) + 2, 7, 64, 300, 1100, 66000):
+                w = (base * (n // len(base) + 1))[:n]
+                cands.append(_set(state, path, w))
+        else:
+            for w in (v + 1, v - 1, v * 2, v + 2):
+                cands.append(_set(state, path, w))
+    tried = 0
+    for c in cands:
+        if tried >= budget:
+            break
+        tried += 1
+        try:
+            rr = run_native(top, registry, c)
+        except Exception:  # noqa: BLE001
+            continue
+        if accept(rr):
+            rr['from'] = 'search-near-model'
+            return c, rr
+    return None
